@@ -12,49 +12,52 @@ import (
 
 // Profile steers the scenario generator of one property.
 type Profile struct {
-	Weights        map[string]int // op kind -> weight
-	MinBlocks      int
-	MaxBlocks      int
-	MaxTxs         int // per block
-	MaxOps         int // per tx
-	PUpper         int // percent of ops using the upper-case address spelling
-	PActor         int // percent of ops with an explicit (possibly unentitled) actor
-	PNamed         int // percent of ops naming another account than the signer
-	PFault         int // percent of txs with a signing fault
-	PExec          int // percent of txs wrapped in MsgExec
-	PGovParams     int // percent of blocks that carry a governance parameter change
-	PBadRef        int // percent of refs that are unknown / zero
-	BigAmounts     bool
-	Vesting        bool
-	TinyLimits     bool
-	ValidParams    bool // governance patches are always valid structures
-	EntDenomChange bool // governance may change the enterprise denomination
-	LongTime       bool // allow day/year block gaps
-	FeeModes       []int
-	DupSigners     bool
-	GovKinds       []string // which modules' parameters governance changes (default: all four)
-	PCheck         int      // percent of txs that are submitted to CheckTx only (mempool admission)
-	SlotRules      []int    // override of the storage-purchase slot rules
-	PGranter       int      // percent of txs that name a fee granter (one who granted the payer an allowance, if any)
-	SteerExport    bool     // C15: the block before the export point raises an order and funds a stream
-	PBulk          int      // per-mille of txs that are repeated 100-260 times in a row (bulk populations)
-	LockedActors   bool     // registrations are preferably made by accounts that hold locked eFUND
-	PSameKind      int      // percent of follow-up messages in a multi-message tx that repeat the first message's kind, actor and target
-	Crashes        bool     // blocks carry restart points (C01)
-	GasSweep       bool     // some txs get a gas limit that runs out at an ante / message boundary
-	MultiPct       int      // percent of txs with several messages (default 10)
-	ManyDenoms     bool     // genesis balances in additional denominations sorting before, around and after the native one
-	PExecTail      int      // percent of multi-message txs whose messages after the first are nested in a MsgExec of the first signer
-	PEscrow        int      // percent of stream creations / bank sends aimed at a module account (gov, the two escrows), lower or upper case
-	PRetry         int      // percent of record/purchase operations that retry an earlier rolled-back attempt (same party, same identifier)
-	PForward       int      // percent of follow-up messages after a registration that use that registration (forward reference)
-	PMultiTarget   int      // percent of txs starting with a storage purchase that go on purchasing for other targets (neighbours, nonexistent ones)
-	PAmino         int      // percent of txs signed in the legacy amino-JSON mode
-	PTamper        int      // percent of faulty txs whose fault is "a message field altered after signing"
-	NodeMinGas     bool     // the node may have a minimum-gas-prices setting (mempool policy), and CheckTx-only txs vary their gas limit
-	RegDenomMix    bool     // genesis: the WRKChain / BEACON fee denomination may differ from the enterprise denomination
-	PReimport      int      // percent of blocks (after the first) before which the network is restarted from an exported genesis
-	PFeePayer      int      // percent of txs with an explicit co-signing fee payer (AuthInfo.Fee.Payer)
+	Weights         map[string]int // op kind -> weight
+	MinBlocks       int
+	MaxBlocks       int
+	MaxTxs          int // per block
+	MaxOps          int // per tx
+	PUpper          int // percent of ops using the upper-case address spelling
+	PActor          int // percent of ops with an explicit (possibly unentitled) actor
+	PNamed          int // percent of ops naming another account than the signer
+	PFault          int // percent of txs with a signing fault
+	PExec           int // percent of txs wrapped in MsgExec
+	PGovParams      int // percent of blocks that carry a governance parameter change
+	PBadRef         int // percent of refs that are unknown / zero
+	BigAmounts      bool
+	Vesting         bool
+	TinyLimits      bool
+	ValidParams     bool // governance patches are always valid structures
+	EntDenomChange  bool // governance may change the enterprise denomination
+	LongTime        bool // allow day/year block gaps
+	FeeModes        []int
+	DupSigners      bool
+	GovKinds        []string // which modules' parameters governance changes (default: all four)
+	PCheck          int      // percent of txs that are submitted to CheckTx only (mempool admission)
+	SlotRules       []int    // override of the storage-purchase slot rules
+	PGranter        int      // percent of txs that name a fee granter (one who granted the payer an allowance, if any)
+	SteerExport     bool     // C15: the block before the export point raises an order and funds a stream
+	PBulk           int      // per-mille of txs that are repeated 100-260 times in a row (bulk populations)
+	LockedActors    bool     // registrations are preferably made by accounts that hold locked eFUND
+	PSameKind       int      // percent of follow-up messages in a multi-message tx that repeat the first message's kind, actor and target
+	Crashes         bool     // blocks carry restart points (C01)
+	GasSweep        bool     // some txs get a gas limit that runs out at an ante / message boundary
+	MultiPct        int      // percent of txs with several messages (default 10)
+	ManyDenoms      bool     // genesis balances in additional denominations sorting before, around and after the native one
+	PExecTail       int      // percent of multi-message txs whose messages after the first are nested in a MsgExec of the first signer
+	PEscrow         int      // percent of stream creations / bank sends aimed at a module account (gov, the two escrows), lower or upper case
+	PRetry          int      // percent of record/purchase operations that retry an earlier rolled-back attempt (same party, same identifier)
+	PForward        int      // percent of follow-up messages after a registration that use that registration (forward reference)
+	PMultiTarget    int      // percent of txs starting with a storage purchase that go on purchasing for other targets (neighbours, nonexistent ones)
+	PQuorumConflict int      // percent of histories with the motif: orders raised, one signer accepts and another rejects them, and a steered enterprise parameter change is proposed while they are undecided
+	PGovRaise       int      // percent of governance blocks that carry, instead of a parameter change, a purchase order raised by the governance account itself (whitelisted first)
+	EntSteerBoth    bool     // valid enterprise parameter patches are always steered, preferably so that both quorums hold at once
+	PAmino          int      // percent of txs signed in the legacy amino-JSON mode
+	PTamper         int      // percent of faulty txs whose fault is "a message field altered after signing"
+	NodeMinGas      bool     // the node may have a minimum-gas-prices setting (mempool policy), and CheckTx-only txs vary their gas limit
+	RegDenomMix     bool     // genesis: the WRKChain / BEACON fee denomination may differ from the enterprise denomination
+	PReimport       int      // percent of blocks (after the first) before which the network is restarted from an exported genesis
+	PFeePayer       int      // percent of txs with an explicit co-signing fee payer (AuthInfo.Fee.Payer)
 }
 
 // rapid's integer generators are deliberately biased towards small values and
@@ -422,6 +425,9 @@ func GenParams(t *rapid.T, p *Profile, kind string, nAcc int) *ParamsPatch {
 		if oneIn(t, 3, "entSteer") {
 			pp.Steer = uniRange(t, 1, 3, "entSteerKind")
 		}
+		if p.EntSteerBoth {
+			pp.Steer = 3
+		}
 		if oneIn(t, 5, "upperSigner") {
 			pp.UpperSigner = uniRange(t, 1, 4, "upperSignerK")
 		}
@@ -663,6 +669,10 @@ func GenScenario(t *rapid.T, p *Profile) *Scenario {
 			op := GenOp(t, p, kind, nAcc)
 			op.Actor, op.Named = -1, -1
 			op.Flag = oneIn(t, 7, "veto")
+			if pct(t, p.PGovRaise, "govRaise") {
+				blk.Txs = append(blk.Txs, Tx{Ops: []Op{{Kind: EntWL, Actor: -1, Named: -1, Flag: true, N: uint64(uniRange(t, 0, 3, "govWLSigner")), Peer: nAcc + 3}}})
+				op = Op{Kind: EntRaise, Actor: -1, Named: -1, Rule: 9, Amt: genAmount(t, false, "govRaiseAmt")}
+			}
 			blk.Txs = append(blk.Txs, Tx{Ops: []Op{op}, Wrap: WrapGov})
 		}
 		if p.Crashes && oneIn(t, 4, "crash") {
@@ -689,6 +699,28 @@ func GenScenario(t *rapid.T, p *Profile) *Scenario {
 			s.Blocks[b+1].Txs = append(extra, s.Blocks[b+1].Txs...)
 			s.Blocks[b+1].DtMs = 1000
 		}
+	}
+	if len(s.Blocks) >= 4 && pct(t, p.PQuorumConflict, "quorumConflict") {
+		b := uniRange(t, 0, len(s.Blocks)-4, "quorumConflictAt")
+		raise := Tx{Ops: []Op{{Kind: EntRaise, Actor: -1, Named: -1, Peer: uniRange(t, 0, nAcc-1, "qcPurchaser"), Amt: genAmount(t, false, "qcAmt")}}, Repeat: pick(t, []int{1, 3, 12, 48}, "qcOrders")}
+		s.Blocks[b].Txs = append([]Tx{raise}, s.Blocks[b].Txs...)
+		var extra []Tx
+		for k := 0; k < 2; k++ {
+			for part := 0; part < 2; part++ {
+				extra = append(extra, Tx{Ops: []Op{{Kind: EntDecide, Actor: -1, Named: -1, Peer: k, Rule: 2, Flag: k == 0}}})
+			}
+		}
+		pp := GenParams(t, &Profile{ValidParams: true}, ParamsEnt, nAcc)
+		pp.Steer = 3
+		if oneIn(t, 3, "qcOneSigner") {
+			pp.Signers, pp.MinAccepts = pp.Signers[:1], 1
+		}
+		extra = append(extra, Tx{Ops: []Op{{Kind: ParamsEnt, Actor: -1, Named: -1, P: pp}}, Wrap: WrapGov})
+		s.Blocks[b+1].Txs = append(extra, s.Blocks[b+1].Txs...)
+		s.Blocks[b+1].DtMs = 1000
+		// the proposal passes after the voting period; the orders stay undecided until then if the time limit allows
+		s.Blocks[b+2].DtMs = int64(lab.VotingPeriodS+1) * 1000
+		s.Blocks[b+2].DtRule = 0
 	}
 	if p.SteerExport && len(s.Blocks) >= 3 {
 		// steer towards interesting export points (export is taken after two thirds of the blocks)
